@@ -264,7 +264,7 @@ func FuzzC08(f *testing.F) {
 		re := c08Regexps[int(sel)%len(c08Regexps)]
 		c := &C08Case{Data: b, True: "true", False: "false", Nil: "nil", Word: "foo", Op: "==", Rune: []rune{'a', 'é', '😀', 0xff}[int(sel)%4], Regexp: re.Expr, Group: re.Group}
 		if err := checkLiterals(c, nil); err != nil {
-			t.Fatalf("C08 violated on %q: %v", b, err)
+			fuzzFail(t, "C08", c, err)
 		}
 	})
 }
